@@ -61,8 +61,8 @@ def check_model(m, par, chil, nonmand_children) -> bool:
     return True
 
 
-def ops(shape, cards, m=None) -> bool:
-    m = R.build(shape, cards) if m is None else m
+def ops(shape, cards, m=None, abstract=None) -> bool:
+    m = R.build(shape, cards, abstract=abstract) if m is None else m
     rels = R.relations_of(shape)
     n = R.n_features(shape)
     nm = [[] for _ in range(n)]
@@ -178,7 +178,7 @@ def batch_native(max_n, lo, hi):
 def conditions(tier, seed):
     N = 5 if tier == 'quick' else 7
     conds = cards_conditions('c16_ops', 'c16', 'ops', indexed_shapes(N), 30 if tier == 'quick' else 90,
-                             'six tree operations == reference tree facts (cards symbolic)')
+                             'six tree operations == reference tree facts (cards symbolic)', flags=True)
     # symbolic widths of the leaf groups
     W = 4 if tier == 'quick' else 6
     for si, shape in indexed_shapes(4 if tier == 'quick' else 5):
